@@ -135,7 +135,7 @@ func pairInproc(c ctor) {
 		msgs := senders[name]
 		calls = append(calls, kit.Start("Send:"+name, func() (interface{}, error) {
 			for _, m := range msgs {
-				if err := a.Send([]byte(m)); err != nil {
+				if err := kit.SendBytes(a, []byte(m)); err != nil {
 					return nil, err
 				}
 			}
@@ -164,7 +164,7 @@ func pairInproc(c ctor) {
 	}
 	checkOrder("B", got, senders)
 	// and the other direction on the same connection
-	must(b.Send([]byte("back:0")), "Send back")
+	must(kit.SendBytes(b, []byte("back:0")), "Send back")
 	r2 := kit.Start("RecvBack", func() (interface{}, error) { m, err := kit.Recv(a); return string(m), err })
 	kit.Quiesce()
 	if !r2.Done() || r2.Err != nil || r2.Val.(string) != "back:0" {
@@ -191,7 +191,7 @@ func pairBackpressure(c ctor) {
 	n := 4
 	sc := kit.Start("Sender", func() (interface{}, error) {
 		for i := 0; i < n; i++ {
-			if err := s.Send([]byte(fmt.Sprintf("s:%d", i))); err != nil {
+			if err := kit.SendBytes(s, []byte(fmt.Sprintf("s:%d", i))); err != nil {
 				return nil, err
 			}
 		}
@@ -253,7 +253,7 @@ func pairPeers(c ctor, depth int) {
 			evs = append(evs, kit.Event{Name: "send", Run: func() {
 				nsend++
 				msg := fmt.Sprintf("m%d", nsend)
-				cl := kit.Start("Send", func() (interface{}, error) { return nil, s.Send([]byte(msg)) })
+				cl := kit.Start("Send", func() (interface{}, error) { return nil, kit.SendBytes(s, []byte(msg)) })
 				kit.Quiesce()
 				if !cl.Done() || cl.Err != nil {
 					kit.Failf("send-stuck", "Send done=%v %s with an attached peer", cl.Done(), kit.ErrName(cl.Err))
@@ -394,7 +394,7 @@ func pairPeersDialer(c ctor, depth int) {
 						m.Body = append(m.Body, msg...)
 						return nil, s.SendMsg(m)
 					}
-					return nil, s.Send([]byte(msg))
+					return nil, kit.SendBytes(s, []byte(msg))
 				})
 				kit.Quiesce()
 				if !cl.Done() || cl.Err != nil {
@@ -487,7 +487,7 @@ func pushHist(name string, c ctor, depth int) {
 			evs = append(evs, kit.Event{Name: "send", Run: func() {
 				msg := fmt.Sprintf("m%d", len(sent))
 				sent = append(sent, msg)
-				calls = append(calls, kit.Start("Send:"+msg, func() (interface{}, error) { return nil, s.Send([]byte(msg)) }))
+				calls = append(calls, kit.Start("Send:"+msg, func() (interface{}, error) { return nil, kit.SendBytes(s, []byte(msg)) }))
 			}})
 		}
 		for pi, p := range pipes {
@@ -554,7 +554,7 @@ func pushSched(c ctor) {
 		msgs := senders[name]
 		calls = append(calls, kit.Start("Send:"+name, func() (interface{}, error) {
 			for _, m := range msgs {
-				if err := s.Send([]byte(m)); err != nil {
+				if err := kit.SendBytes(s, []byte(m)); err != nil {
 					return nil, err
 				}
 			}
